@@ -96,6 +96,10 @@ def output_dict(cfg):
     h5 = {k: int(cad.get(k, 0)) for k in ("data", "coordinates", "velocities", "forces")}
     if cfg["engine"] in ("fssh", "fssh_damped"):
         h5["nonadiabatic"] = int(cad.get("nonadiabatic", 0))
+    if cfg["engine"] in ("fssh", "fssh_damped", "cis_bomd", "cis_xl") and int(cad.get("tdm", 0)) > 0:
+        h5["transition_density_matrices"] = int(cad["tdm"])      # its own stream, engines with excited states only
+    if cfg.get("write_mo"):
+        h5["write_mo"] = True
     return {"molid": list(cfg["molid"]), "prefix": cfg["prefix"], "print every": int(cad.get("print", 0)),
             "checkpoint every": int(cad.get("checkpoint", 0)), "xyz": int(cad.get("xyz", 0)), "h5": h5}
 
@@ -296,6 +300,10 @@ class Instrument:
         self.wrap(MD.XYZWriter, "write", "xyz.write", info=lambda a, k: {"label": int(a[1]) + 1})
         self.wrap(MD.XYZWriter, "flush", "xyz.flush")
         self.wrap(MD.XYZWriter, "close", "xyz.close")
+        # the step label handed to the hop logger on every integrator step (HopEvent.step is taken from it)
+        if "_after_electronic_update" in NAD.SurfaceHoppingDynamics.__dict__:
+            self.wrap(NAD.SurfaceHoppingDynamics, "_after_electronic_update", "fssh.after_update", always_log=True,
+                      info=lambda a, k: {"hop_step": (int(k["step"]) if k.get("step") is not None else None)})
         self.wrap(MD.Molecular_Dynamics_Basic, "_flush_all", "flush_all")
         self.wrap(MD.Molecular_Dynamics_Basic, "_atomic_save_checkpoint", "atomic_save")
         self.wrap(torch, "save", "torch.save")
@@ -648,6 +656,42 @@ def read_thermo_lines(path):
                 out.append((int(m.group(1)), vals))
     except FileNotFoundError:
         pass
+    return out
+
+
+_HOP_HDR = re.compile(r"^Hop events for molecule (\S+):")
+_HOP_EV = re.compile(r"^\s+step\s+(-?\d+):\s+S(\d+)\s+->\s+S(\d+)\s+\((\w+)")
+
+
+def read_hop_log(path):
+    """Hop log printed at the end of a surface-hopping run -> sorted list of (mol, step, from, to, status)."""
+    out, mol = [], None
+    try:
+        with open(path) as f:
+            for line in f:
+                m = _HOP_HDR.match(line)
+                if m:
+                    mol = m.group(1)
+                    continue
+                m = _HOP_EV.match(line)
+                if m and mol is not None:
+                    out.append((mol, int(m.group(1)), int(m.group(2)), int(m.group(3)), m.group(4)))
+    except FileNotFoundError:
+        pass
+    return sorted(out)
+
+
+def hop_step_labels(events):
+    """[(i, label)] : integrator step index i (from the wrapper on _do_integrator_step) and the step label that the
+    same step handed to the hop logger (wrapper on SurfaceHoppingDynamics._after_electronic_update)."""
+    out, cur = [], None
+    for e in events:
+        if e.get("ev") != "call" or e.get("ph") != "before":
+            continue
+        if e.get("t") == "step":
+            cur = e.get("i")
+        elif e.get("t") == "fssh.after_update":
+            out.append((cur, e.get("hop_step")))
     return out
 
 
